@@ -309,6 +309,14 @@ func (s *dataScanner) nextContainer() error {
 	if err != nil {
 		return err
 	}
+	if len(level3Block) == 0 {
+		// flusher writes nothing for a container if all series entries of it are empty
+		// (metric with one field, series without data in the flushed memory database),
+		// no series entry can be found under this container.
+		s.seriesEntries = nil
+		s.highContainerIdx++
+		return nil
+	}
 	if len(level3Block) <= 4 {
 		return fmt.Errorf("series entries length too short: %d", len(level3Block))
 	}
@@ -345,7 +353,7 @@ func (s *dataScanner) scan(highKey, lowSeriesID uint16) []byte {
 		return nil
 	}
 	// find data by low series id
-	if s.container.Contains(lowSeriesID) {
+	if len(s.seriesEntries) > 0 && s.container.Contains(lowSeriesID) {
 		// get the index of low series id in container
 		idx := s.container.Rank(lowSeriesID)
 		// get series data data position
